@@ -30,7 +30,8 @@ EXPLANATION = (
     'route (get_route_io_data_types_for_route unwraps List/Nullable and keeps every other '
     'composite or alias), route docs, namespace docs, the datatype whitelist. Decides closure '
     'mechanics, not minimality.'
-    ' RD (decision drift, stonelint.conddrift): the tests of the functions this property is anchored in (stonelint.ownership) are compared with reference/conditions.json; a relation, polarity or connective changed over the same operands, or an operand purely added or dropped, is a violation; re-spellings and new or removed tests are not claimed.')
+    ' RD (decision drift, stonelint.conddrift): the tests of the functions this property is anchored in (stonelint.ownership) are compared with reference/conditions.json; a relation, polarity or connective changed over the same operands, or an operand purely added or dropped, is a violation; re-spellings and new or removed tests are not claimed.'
+    " RE (expression drift, stonelint.exprdrift): the same functions' attribute names, variable reads, simple statements, calls and arithmetic/slice literals are compared with reference/expressions.json; a substituted attribute or variable, a dropped call or assignment, swapped arguments or a changed literal is a violation; any other edit is not claimed.")
 ASSUMPTIONS = [
     'a reference-bearing attribute is one assigned, in a constructor or set_* method of an IR '
     'class, from a parameter named like a data type (data_type, *_data_type, parent_type, fields, '
@@ -341,3 +342,5 @@ def run(pm, ctx):
     from ..conddrift import run_decisions
     from ..ownership import OWN
     run_decisions(pm, ctx, 'C20-RD', OWN['C20'])
+    from .. import exprdrift
+    exprdrift.run(pm, ctx, 'C20-RE', OWN['C20'])
